@@ -74,6 +74,12 @@ def main():
         lay.append({"kind": kind, "chroms": [L, L], "items": items, "vmap": "int", "scale": 1, "asq": "bed3", "mz": [], "allq": 0, "zq": 0, "big": 1,
                     "opts": {"ips": 512, "bs": 16, "zooms": [[], [64]][k % 2], "zmode": "manual", "compress": 0, "inmem": k % 2, "rt": "multi", "threads": 2,
                              "pass": 1 + (k // 2) % 2, "chan": 100, "sort": "all"}})
+    # exact fits: uncompressed sections of one chromosome that add up to a whole multiple of the 8 KiB writer buffer (2040 one-base values
+    # in sections of 512: 3 x 6168 + 6072 = 3 x 8192 bytes), and one value more; channel size 0 and one thread, as the command line sets them
+    for n in (2040, 2041):
+        items = [[1, i, i + 1, 1 + i % 5] for i in range(n)]
+        lay.append({"kind": "bw", "chroms": [n + 5], "items": items, "vmap": "int", "scale": 1, "asq": "bed3", "mz": [], "allq": 0, "zq": 0, "big": 1,
+                    "opts": {"ips": 512, "bs": 256, "zooms": [], "zmode": "manual", "compress": 0, "inmem": 0, "rt": "current", "threads": 1, "pass": 1, "chan": 0, "sort": "all"}})
     rec = [dict(c, mode="record", dump=os.path.join(run.wd, "full%d.bin" % i)) for i, c in enumerate(lay)]
     obs = run_harness("sink", rec, run.wd, hang_timeout=30, shards=8)
     lines, tr_lines, owner = [], [], []
